@@ -201,6 +201,50 @@ static void c08_run_all(void) {
   vh_count_dyn("slots_hit_by_this_shard", (uint64_t)hit);
 }
 
+
+/* ---- C08 stage "exh32": every 4-byte argument of every initial byte that carries one (8 x 2^32 heads), judged by a
+ * closed-form expectation instead of the tokeniser (status, read, required, the one callback's slot and argument);
+ * replaying a case runs the full c08_case on the same five bytes */
+static void c08_exh32(void) {
+  static uint8_t buf[8];
+  int ctx;
+  rec_expected_ctx = &ctx;
+  static const int slot_of_mt[8] = {S_UINT32, S_NEGINT32, S_BSTR, S_STR, S_ARRAY, S_MAP, S_TAG, S_FLOAT4};
+  /* shard = contiguous slice of the argument space */
+  uint64_t lo = ((uint64_t)O.shard << 32) / (uint64_t)O.nshards, hi = (((uint64_t)O.shard + 1) << 32) / (uint64_t)O.nshards;
+  for (unsigned mt = 0; mt < 8; mt++) {
+    buf[0] = (uint8_t)(mt << 5 | 26);
+    buf[5] = 0xa5;
+    for (uint64_t a = lo; a < hi; a++) {
+      buf[1] = (uint8_t)(a >> 24); buf[2] = (uint8_t)(a >> 16); buf[3] = (uint8_t)(a >> 8); buf[4] = (uint8_t)a;
+      if (!vh_case(buf, 5)) continue;
+      rec_reset();
+      struct cbor_decoder_result res = cbor_stream_decode(buf, 5, &rec_table, &ctx);
+      bool str = mt == 2 || mt == 3;
+      if (str && a > 0) {
+        if (res.status != CBOR_DECODER_NEDATA || rec_n != 0 || res.read != 0 || res.required <= 5 || res.required > 5 + a)
+          vh_violation("nedata-contract", "string head %02x for %llu bytes without payload: status %s, %d callbacks, read %zu, required %zu", buf[0], (unsigned long long)a, st_name(res.status), rec_n, res.read, res.required);
+      } else {
+        uint64_t want = a, got = rec_ev[0].arg;
+        if (str) { want = 0; got = rec_ev[0].len; }
+        if (mt == 7 && ref_is_nan32((uint32_t)a)) { want = 0x7fc00000u; got = ref_is_nan32((uint32_t)got) ? 0x7fc00000u : got; }
+        if (res.status != CBOR_DECODER_FINISHED || rec_n != 1 || res.read != 5 || rec_ev[0].slot != slot_of_mt[mt] || got != want || rec_bad_ctx)
+          vh_violation("finished-contract", "head %02x %08llx: status %s, %d callbacks, read %zu, slot %s, argument %llx", buf[0], (unsigned long long)a, st_name(res.status), rec_n, res.read,
+                       rec_n ? rslot_names[rec_ev[0].slot] : "-", (unsigned long long)got);
+        else slot_hits[slot_of_mt[mt]]++;
+      }
+      /* one in 64: the head cut short by a byte asks for exactly the missing byte */
+      if ((a & 63) == 0) {
+        rec_reset();
+        struct cbor_decoder_result r4 = cbor_stream_decode(buf, 4, &rec_table, &ctx);
+        if (r4.status != CBOR_DECODER_NEDATA || rec_n || r4.read || r4.required != 5) vh_violation("nedata-contract", "head %02x cut to 4 bytes: status %s, %d callbacks, read %zu, required %zu", buf[0], st_name(r4.status), rec_n, r4.read, r4.required);
+      }
+      vh_nontrivial_distinct();
+    }
+  }
+  for (int s = 0; s < S_NSLOTS; s++) if (slot_hits[s]) { char nm[64]; snprintf(nm, sizeof nm, "slot_hits.%s", rslot_names[s]); vh_count_dyn(nm, slot_hits[s]); }
+}
+
 /* buffers whose own length exceeds 2^32: the head (and payload) sit at the start of a >8 GiB region; the result must
  * be what the same bytes give in an exactly-sized buffer */
 static void c08_huge_case(const uint8_t* item, size_t n, size_t claimed) {
@@ -522,6 +566,7 @@ static size_t want_encoding(int e, uint64_t v, uint8_t* o, int* slot, uint64_t* 
   return 0;
 }
 
+static bool g_c10_by_construction;
 static void c10_case(int e, uint64_t v) {
   uint8_t desc[9];
   desc[0] = (uint8_t)e;
@@ -574,7 +619,7 @@ static void c10_case(int e, uint64_t v) {
   }
   (void)fbits;
   free(buf);
-  vh_nontrivial(vh_hash(desc, 9));
+  if (g_c10_by_construction) vh_nontrivial_distinct(); else vh_nontrivial(vh_hash(desc, 9));
 }
 
 static void c10_run_all(void) {
@@ -617,6 +662,15 @@ static void c10_run_all(void) {
   for (int e = 0; e < E_N; e++) { char nm[64]; snprintf(nm, sizeof nm, "encoder_ok.%s", enc_names[e]); vh_count_dyn(nm, enc_hits[e]); }
 }
 
+static void c10_exh32(void) {
+  static const int encs[] = {E_UINT32, E_NEGINT32, E_SINGLE, E_UINT, E_NEGINT, E_BSTART, E_SSTART, E_ASTART, E_MSTART, E_TAG};
+  uint64_t lo = ((uint64_t)O.shard << 32) / (uint64_t)O.nshards, hi = (((uint64_t)O.shard + 1) << 32) / (uint64_t)O.nshards;
+  g_c10_by_construction = true;
+  for (size_t k = 0; k < sizeof encs / sizeof encs[0]; k++)
+    for (uint64_t v = lo; v < hi; v++) c10_case(encs[k], v);
+  for (int e = 0; e < E_N; e++) if (enc_hits[e]) { char nm[64]; snprintf(nm, sizeof nm, "encoder_ok.%s", enc_names[e]); vh_count_dyn(nm, enc_hits[e]); }
+}
+
 /* ------------------------------------------------------------------ entry */
 static void setup(void) {
   P = atoi(O.prop + 1);
@@ -631,6 +685,14 @@ static void stream_run(void) {
     c08_huge_all();
     vh_set_rule("each case is an item head (and payload) at the start of a region larger than 4 GiB, decoded with a claimed buffer length of 2^32-1 .. 2^33+65536; the outcome must equal that of the same bytes in an exactly-sized buffer; distinct by hash of (claimed length, bytes)");
     vh_set_exhaustive(false);
+  } else if (P == 8 && !strcmp(O.stage, "exh32")) {
+    c08_exh32();
+    vh_set_rule("each case is one of the 8 x 2^32 five-byte heads with a 4-byte argument, decoded once (one in 64 also cut to 4 bytes) and judged against the closed-form expectation: status, read, required, exactly one callback of the right kind with the right argument; distinct by construction");
+    vh_set_exhaustive(true);
+  } else if (P == 10 && !strcmp(O.stage, "exh32")) {
+    c10_exh32();
+    vh_set_rule("each case is one (encoder, value) pair for every value below 2^32 of the ten encoders whose domain or shortest-form switch lies there (uint32, negint32, single, uint, negint, bytestring/string/array/map start, tag); bytes and return value against the RFC 8949 head, then decoded back; distinct by construction");
+    vh_set_exhaustive(true);
   } else if (P == 8) {
     c08_run_all();
     vh_set_rule("each case is one (initial byte, argument bytes, buffer length) triple in an exactly-sized heap block, decoded with a 24-slot recording callback table and compared with a one-head reference tokeniser; distinct by 64-bit hash of the buffer (1- and 2-byte arguments exhaustive); every case is non-trivial because status, read, required, callback slot/argument/pointer, allocator silence, statelessness and independence from trailing bytes are all judged");
